@@ -256,8 +256,37 @@ func c16ProbeTable(e *Env) {
 	}
 	// the socket request: performed by the getter itself, or by a helper that
 	// hands the request's error on unchanged or wrapped with %w
+	// the request, or a forwarder of it (`return client.Request(method, path)`: one
+	// block that hands both results back as they are)
+	var isRequest func(c *ssa.CallCommon, d int) bool
+	isRequest = func(c *ssa.CallCommon, d int) bool {
+		if ir.CalleeName(c) == "(*internal/sock.Client).Request" {
+			return true
+		}
+		h := c.StaticCallee()
+		if h == nil || !e.P.Funcs[h] || len(h.Blocks) != 1 || d > 3 || h.Signature.Results().Len() != 2 {
+			return false
+		}
+		rt, ok := h.Blocks[0].Instrs[len(h.Blocks[0].Instrs)-1].(*ssa.Return)
+		if !ok || len(rt.Results) != 2 {
+			return false
+		}
+		var inner *ssa.Call
+		for i, rv := range rt.Results {
+			ex, isE := rv.(*ssa.Extract)
+			if !isE || ex.Index != i {
+				return false
+			}
+			ic, isC := ex.Tuple.(*ssa.Call)
+			if !isC || (inner != nil && ic != inner) {
+				return false
+			}
+			inner = ic
+		}
+		return inner != nil && isRequest(&inner.Call, d+1)
+	}
 	direct := func(f *ssa.Function) (*ssa.Call, ssa.Value) {
-		for _, ci := range ir.CallsIn(f, func(c *ssa.CallCommon) bool { return ir.CalleeName(c) == "(*internal/sock.Client).Request" }) {
+		for _, ci := range ir.CallsIn(f, func(c *ssa.CallCommon) bool { return isRequest(c, 0) }) {
 			if c, ok := ci.(*ssa.Call); ok {
 				for _, ref := range *c.Referrers() {
 					if ex, ok := ref.(*ssa.Extract); ok && ex.Index == 1 {
@@ -442,25 +471,50 @@ func c16ProbeTable(e *Env) {
 	cr := e.Fn("internal/sock", "(*Client).Request")
 	if cr != nil {
 		ok := false
-		var wraps []ssa.CallInstruction
-		for _, g := range e.withPkgHelpers(cr) {
-			wraps = append(wraps, ir.CallsIn(g, func(c *ssa.CallCommon) bool { return ir.IsCallTo(c, "fmt.Errorf") })...)
+		helpers := e.withPkgHelpers(cr)
+		underTimeout := func(ci ssa.Instruction) bool {
+			return HasVal(e.DCS(ci), func(v ssa.Value) bool {
+				c, isC := ir.Resolve(v).(*ssa.Call)
+				return isC && c.Call.IsInvoke() && c.Call.Method.Name() == "Timeout"
+			}, true)
 		}
-		for _, ci := range wraps {
-			f, _ := ir.ConstString(ci.Common().Args[0])
-			if !strings.Contains(f, "%w") {
-				continue
+		// sentinelAt: the value wrapped at `site` is ErrTimeout under a Timeout() test -
+		// directly, or as the argument a wrapping helper of the package is called with
+		var sentinelAt func(v ssa.Value, site ssa.Instruction, d int) bool
+		sentinelAt = func(v ssa.Value, site ssa.Instruction, d int) bool {
+			if d > 4 {
+				return false
 			}
 			tr := &ir.Tracer{C: e.C}
-			for _, l := range tr.Trace(ci.Common().Args[1]) {
-				if l.Kind == "global" && l.Name == "ErrTimeout" {
-					// under a net.Error Timeout() test
-					if HasVal(e.DCS(ci), func(v ssa.Value) bool {
-						c, isC := ir.Resolve(v).(*ssa.Call)
-						return isC && c.Call.IsInvoke() && c.Call.Method.Name() == "Timeout"
-					}, true) {
-						ok = true
+			for _, l := range tr.Trace(v) {
+				if l.Kind == "global" && l.Name == "ErrTimeout" && underTimeout(site) {
+					return true
+				}
+				p, isP := l.V.(*ssa.Parameter)
+				if l.Kind != "param" || !isP || !ir.IsErrorType(p.Type()) {
+					continue
+				}
+				idx := -1
+				for i, q := range p.Parent().Params {
+					if q == p {
+						idx = i
 					}
+				}
+				for _, g := range helpers {
+					for _, ci := range ir.CallsIn(g, func(c *ssa.CallCommon) bool { return c.StaticCallee() == p.Parent() }) {
+						if idx >= 0 && idx < len(ci.Common().Args) && sentinelAt(ci.Common().Args[idx], ci, d+1) {
+							return true
+						}
+					}
+				}
+			}
+			return false
+		}
+		for _, g := range helpers {
+			for _, ci := range ir.CallsIn(g, func(c *ssa.CallCommon) bool { return ir.IsCallTo(c, "fmt.Errorf") }) {
+				f, _ := ir.ConstString(ci.Common().Args[0])
+				if strings.Contains(f, "%w") && sentinelAt(ci.Common().Args[1], ci, 0) {
+					ok = true
 				}
 			}
 		}
